@@ -35,7 +35,11 @@ def main():
         res, err, extra = decide.decide(pid, mod, common.REPO, tier)
         if err is not None:
             raise err
-        if tier == "thorough":
+        if tier == "thorough" and res.new_findings():
+            # the tree under check violates the property: that is the verdict; the self-validation (which replays variants of this very
+            # tree and expects the twins to be silent) would only restate it
+            extra["selftest"] = {"skipped": "the tree under check has new findings; self-validation is run on trees that pass"}
+        elif tier == "thorough":
             import selftest
             st = selftest.run_for(pid, mod, seed)
             extra["selftest"] = st
